@@ -28,7 +28,7 @@ FILE_CHECKS = {
     'pykdebugparser/pykdebugparser.py': ['C12', 'C13', 'C14', 'C19', 'C06'],
     'pykdebugparser/os_log_event.py': ['C16', 'C03'],
     'pykdebugparser/trace_codes.py': ['C19'],
-    'pykdebugparser/__main__.py': ['C06'],
+    'pykdebugparser/__main__.py': ['C06', 'C12', 'C13', 'C14', 'C03'],
 }
 OPS = [
     ('arg-index', re.compile(r'args\[(\d)\]'), lambda m: f'args[{(int(m.group(1)) + 1) % 4}]'),
